@@ -1292,6 +1292,13 @@ func runC10(c c10Case, st *verifkit.Stats) *verifkit.Failure {
 				if g := c10Render(got); g != wantModel.render() {
 					return nil, nil, verifkit.Failf("attributes", "route %d %s: ApplyPolicy yields\n  %s\nthe documented model yields\n  %s\nfrom\n  %s\n  program: %s", ri, what, g, wantModel.render(), inModel.render(), verifkit.JSON(c10Program(env.c, a)))
 				}
+				// the route the policy hands on is sent as it is: the length each attribute reports (what the UPDATE
+				// packer budgets with) has to be the length it serialises to
+				for _, pa := range got.GetPathAttrs() {
+					if b, err := pa.Serialize(); err == nil && pa.Len() != len(b) {
+						return nil, nil, verifkit.Failf("attribute-length", "route %d %s: %v of the resulting route reports %d octets and serialises to %d\n  program: %s", ri, what, pa.GetType(), pa.Len(), len(b), verifkit.JSON(c10Program(env.c, a)))
+					}
+				}
 				if got != in {
 					out = append(out, handed{what, got, c10Render(got)})
 				}
